@@ -188,6 +188,12 @@ def walk(tree, dom, mapping, max_leaf=None, max_internal=None):
         if not sk(a) < sk(b):
             w.problems.append("chain-keys-not-increasing")
             break
+    # (a recursive closure is a reference cycle: function -> cell -> function;
+    # with the collector switched off it would keep leafinfo -- and through
+    # it every node of the tree -- alive for the rest of the run, so that no
+    # evicted node would ever really be freed)
+    visit = None
+    leafinfo.clear()
     return w
 
 
